@@ -20,7 +20,7 @@ META = {
                     "current global settings); two-qubit gates drawn side by side may be offset by at most 0.25 x duration^2 (documented artistic offset)"],
     "floors": {
         "quick": {"drawings": 3800, "placements_checked": 20000, "rows_checked": 30000, "snapshots_compared": 3800, "unknown_channel_rejected": 300,
-                  "compact_under_nondefault_global": 800, "label_maps_checked": 1000, "isolated_cphase_dots_checked": 300},
+                  "compact_under_nondefault_global": 800, "label_maps_checked": 1000, "isolated_cphase_dots_checked": 300, "barrier_extents_checked": 400},
         "thorough": {"drawings": 38000, "placements_checked": 200000, "snapshots_compared": 38000, "unknown_channel_rejected": 3000},
     },
 }
@@ -60,6 +60,16 @@ def install_hooks():
         return orig_dot(self, axes)
 
     DotComponent.draw = dot_draw
+    # final artist of a barrier: the vertical extent that is actually drawn, next to the per-qubit transforms it was built from
+    from qce_circuit.visualization.visualize_circuit.draw_components.multi_pivot_components import BlockVerticalBarrier
+    orig_barrier = BlockVerticalBarrier.draw
+
+    def barrier_draw(self, axes):
+        centers = [float(t.center_pivot.y) for t in self.multiple_transforms]
+        _HOOKS.setdefault("barriers", []).append((float(self.top_pivot.y), float(self.bot_pivot.y), centers))
+        return orig_barrier(self, axes)
+
+    BlockVerticalBarrier.draw = barrier_draw
     _HOOKS["installed"] = True
 
 
@@ -148,6 +158,7 @@ def check_program(prog: Dict[str, Any], acc: Acc, flags=None):
         labels = {int(k): v for k, v in opt["labels"].items()} if opt["labels"] is not None else None
         _HOOKS["placements"] = []
         _HOOKS["dots"] = []
+        _HOOKS["barriers"] = []
         _HOOKS["description"] = None
         memo_shadow.drain()
         try:
@@ -272,6 +283,13 @@ def _check_drawing(acc: Acc, case, opt, occupied: List[int], labels, S: M.Settin
                     acc.finding("placement/two-qubit-dot", "a controlled-phase gate that shares its rows with no other simultaneous two-qubit gate is not drawn at its start time",
                                 case, {"qubits": list(n.qubits), "expected": [x_want, y_want], "dots": sorted(dots)[:8]})
                     return
+    # ---- a barrier is drawn over the rows of ALL of its qubits
+    for top_y, bot_y, centers in (_HOOKS.get("barriers") or []):
+        acc.count("barrier_extents_checked")
+        if centers and (bot_y > min(centers) + 1e-9 or top_y < max(centers) - 1e-9):
+            acc.finding("placement/barrier-extent", "a barrier is not drawn over the rows of all of its qubits", case,
+                        {"drawn": [bot_y, top_y], "qubit_rows_y": sorted(centers)})
+            return
     # ---- figure width
     want_w = max(1.0, latest_end) + 1.0
     if abs(desc.channel_width - want_w) > TOL or abs(size[0] - want_w) > 1e-3:
